@@ -57,7 +57,10 @@ impl<'a> DwarfUnitParser<'a> {
             lines = parse_lines(&mut rows)?;
             files = parse_files(self.dwarf, &unit, &rows)?;
         }
-        lines.sort_unstable_by_key(|x| x.address);
+        // Stable sort: rows of one address keep program order (the last one describes the
+        // instruction). An end_sequence row describes no instruction: it is ordered before the
+        // rows of the next sequence that start at the same address.
+        lines.sort_by_key(|x| (x.address, !x.end_sequence()));
 
         let mut ranges = self
             .dwarf
